@@ -129,3 +129,10 @@ Definition copula_chain_drift (ms : list (list (Q * Q * Q) * list Q * nat * Q * 
 Definition copula_chain_drift_joint (joint_fv : bool) (ms : list (list (Q * Q * Q) * list Q * nat * Q * Z * bool * Q)) : list Q :=
   map (fun m => match m with (ps, xs, o, md, rep, fv, a) =>
          process_drift_v (tmass (step_m1 ps) (headq xs) (lastq xs)) (chain_pinf xs) chain_err md rep fv joint_fv a (chain_mu_h ps xs o) end) ms.
+
+(* MCLevyCopulaSimulation.__init__ (markovchainlevycopula.py:173-199, repaired: fix-grid3): variance_matrix = adj_matrix +
+   diag(sigma_k^2); for independent margins adj_matrix is diagonal and its k-th entry is the second moment of margin k's jumps
+   inside the central cell, 0 for a margin of finite variation.  Diagonal of D D^T, one entry per margin:
+   (pieces, axis, sigma, finite-variation flag) *)
+Definition copula_chain_sig2 (ms : list (list (Q * Q * Q) * list Q * Q * bool)) (h : Q) : list Q :=
+  map (fun m => match m with (ps, xs, sigma, fv) => chain_sig_h2 ps xs sigma fv h end) ms.
